@@ -1,23 +1,30 @@
 /-
 The history invariants for the LARGER alphabet `OpX` of `Model/Step.lean`: the 17 core operations, `set_item_name`
-(`opRename`) and `sort` (`opSort`).  In every state reachable from the empty world by any guarded history of these operations:
+(`opRename`), `sort` (`opSort`) and `set_reference_target` (`opSetRef`).  In every state reachable from the empty world by any
+guarded history of these operations the full invariant `GInv` holds (`runX_ginv`):
 
 * `Inv`  — the forest is well-formed (parent fields = structure) and every local file set lies within the effective set of the
-  parent (`runX_inv`, no guard needed);
+  parent (`runX_inv`; for histories WITHOUT `set_reference_target` no guard is needed: `runX_inv_noSetRef`.
+  `set_reference_target` keeps `Inv` only in a world with unique element ids, `opSetRef_inv_needs_ids` in `SetRefWitness.lean`,
+  so for the whole alphabet `Inv` is proved together with the index invariant);
 * `FInv` — `CInv` (path index exact, reverse reference map exact, references are leaves, root type) together with `WKidsKnown`
   (every child's name is known to its parent's type in the all-version lookup — what `sort` needs to keep a SHORT-NAME in
   front, `Lemmas/SortIndex.lean`) (`runX_finv`);
+* `WROne` — a reference element holds at most one content item (`Lemmas/RefOne.lean`; what `set_reference_target` needs to
+  keep the reverse reference map exact);
 * a refusal leaves the world unchanged (`applyOpX_err_frame`).
 
-The per-operation lemmas are in `RenameOp.lean` (rename), `SortTree.lean` / `SortIndex.lean` (sort), `KidsKnownReach.lean`
-(`WKidsKnown` through the core operations).  Here: `sort` keeps the file-set invariant, `set_item_name` keeps `WKidsKnown`,
-and the lift to histories.
+The per-operation lemmas are in `RenameOp.lean` (rename), `SortTree.lean` / `SortIndex.lean` (sort), `SetRefOp.lean`
+(set_reference_target), `KidsKnownReach.lean` (`WKidsKnown` through the core operations), `RefOne.lean` (`WROne` through the
+core operations).  Here: `sort` keeps the file-set invariant, `set_item_name` keeps `WKidsKnown`, `WROne` through rename and
+sort, `WKidsKnown` through `set_reference_target`, and the lift to histories.
 -/
 import AutosarVerif.Lemmas.RenameOp
 import AutosarVerif.Lemmas.SortTree
 import AutosarVerif.Lemmas.SortIndex
 import AutosarVerif.Lemmas.KidsKnownReach
 import AutosarVerif.Lemmas.StepFrame
+import AutosarVerif.Lemmas.SetRefOp
 
 namespace AV.W
 open Items
@@ -113,58 +120,220 @@ theorem opRename_known (w : World) (x : Nat) (nm : Bytes) (hl : WKidsKnown S w) 
   intro k c ver cur sh sk rest hloc _ _ _ _ _ _ _ _ _
   exact wkidsKnown_update S w _ k _ hl (renModel_known S _ c sh nm (hl _ (locate_mem_models w x k c hloc))) rfl
 
+/-! ### `WROne` (a reference element holds at most one content item) through rename and sort -/
+
+theorem refOne_iff (its : Items) :
+    RefOne S its ↔ ∀ c ∈ its.childElems, (S.isRef c.1.ety.typ = true → c.2.length ≤ 1) ∧ RefOne S c.2 := by
+  induction its with
+  | nil => simp [refOne_nil, Items.childElems]
+  | text c r ih => rw [refOne_text]; simpa only [Items.childElems] using ih
+  | elem h k r _ ih => rw [refOne_elem]; simp only [Items.childElems, List.forall_mem_cons, ih, and_assoc]
+
+/-- one text replacement of the rename loop: the first item of the content is replaced -/
+theorem refOne_refEdit (its : Items) (t : Nat) (txt : Bytes) (hl : RefOne S its) : RefOne S (its.modify t (refEdit txt)) := by
+  apply refOne_modify S t _ its ?_ hl
+  intro h k _ _ a b
+  cases k with
+  | nil => exact ⟨a, b⟩
+  | text cc r => exact ⟨a, b⟩
+  | elem hx kx r => exact ⟨a, (refOne_text S _ r).mpr ((refOne_elem S hx kx r).mp b).2.2⟩
+
+/-- the renamed model (whatever the map holds): the SHORT-NAME gets one text, the loop replaces first items -/
+theorem renModel_one (m : Model) (c : List (Hdr × Items)) (sh : Hdr) (nm : Bytes) (hl : RefOne S m.rootItems) :
+    RefOne S (renModel S m c sh nm).rootItems := by
+  rw [(renModel_rootItems (S := S) (c := c) (loop_hasRoot m sh nm (pathOfChain S c) (renNew S c nm))).1]
+  apply renameRefs_pres (RefOne S) (fun its t txt hi => refOne_refEdit S its t txt hi)
+  apply refOne_modify S _ _ _ ?_ hl
+  intro h k _ _ _ _
+  exact ⟨fun _ => Nat.le_refl _, (refOne_text S _ _).mpr (refOne_nil S)⟩
+
+theorem opRename_one (w : World) (x : Nat) (nm : Bytes) (hl : WROne S w) : WROne S (opRename S V w x nm).1 := by
+  refine opRename_lift S V (WROne S) w x nm hl ?_
+  intro k c ver cur sh sk rest hloc _ _ _ _ _ _ _ _ _
+  exact wrone_update S w _ k _ hl (renModel_one S _ c sh nm (hl _ (locate_mem_models w x k c hloc))) rfl
+
+/-- `sortNode` re-orders content of more than one item only: the content of a reference element (at most one item) stays -/
+theorem sortNode_one (fuel : Nat) : ∀ (h : Hdr) (k : Items), (S.isRef h.ety.typ = true → k.length ≤ 1) → RefOne S k →
+    (S.isRef h.ety.typ = true → (sortNode S V fuel h k).length ≤ 1) ∧ RefOne S (sortNode S V fuel h k) := by
+  induction fuel with
+  | zero => intro h k h1 h2; rw [sortNode]; exact ⟨h1, h2⟩
+  | succ fuel ih =>
+    intro h k h1 h2
+    have hmk : RefOne S (mapKids (sortNode S V fuel) k) := by
+      rw [refOne_iff, childElems_mapKids]
+      intro c' hc'
+      obtain ⟨c0, hc0, rfl⟩ := List.mem_map.mp hc'
+      have := (refOne_iff S k).mp h2 c0 hc0
+      exact ih c0.1 c0.2 this.1 this.2
+    rcases sortNode_succIx S V fuel h k with e | ⟨hlen, e⟩ | e
+    · rw [e]; exact ⟨h1, h2⟩
+    · rw [e]
+      refine ⟨fun hr => ?_, ?_⟩
+      · have := h1 hr
+        omega
+      · rw [refOne_iff, childElems_ofListIx]
+        intro c hc
+        rw [List.mem_mergeSort] at hc
+        exact (refOne_iff S _).mp hmk c hc
+    · rw [e]
+      exact ⟨fun hr => by rw [length_mapKids]; exact h1 hr, hmk⟩
+
+theorem opSort_one (w : World) (x : Nat) (hl : WROne S w) : WROne S (opSort S V w x).1 := by
+  rw [opSort_eq]
+  split
+  · exact hl
+  · rename_i k c hloc
+    obtain ⟨m, _, hm2, hmem, _⟩ := locate_chain w x k c hloc
+    rw [hm2]
+    refine wrone_update S w _ k _ hl ?_ rfl
+    rw [rootItems_setRoot_modify]
+    refine refOne_modify S x (sortEditIx S V) _ (fun h k0 _ _ a b => ?_) (hl m hmem)
+    exact sortNode_one S V _ h k0 a b
+
+/-! ### `set_reference_target` keeps `WKidsKnown`: the child elements of the reference element only get fewer -/
+
+theorem refKids_childElems_sub (newRef : Bytes) (k : Items) : ∀ c ∈ (refKids newRef k).childElems, c ∈ k.childElems := by
+  intro c hc
+  cases k with
+  | nil => simp [refKids, Items.childElems] at hc
+  | text _ r => exact hc
+  | elem hd kk r => exact List.mem_cons_of_mem _ (by simpa [refKids, Items.childElems] using hc)
+
+theorem kidsKnown_refKids (newRef : Bytes) (k : Items) (hk : KidsKnown S k) : KidsKnown S (refKids newRef k) := by
+  cases k with
+  | nil => trivial
+  | text _ r => exact hk
+  | elem hd kk r => exact hk.2.2
+
+/-- (`WIds`: unique element ids, a part of `WInv`; without them the call renames the other elements that share the id) -/
+theorem opSetRef_known (w : World) (x t : Nat) (hn : WIds w) (hK : WKidsKnown S w) : WKidsKnown S (opSetRef S V w x t).1 := by
+  rcases opSetRef_cases S V w x t with e | ⟨k, c, h, kids, kt, tc, it, ver, h', r, e⟩
+  · rw [e]; exact hK
+  · rw [e]
+    obtain ⟨m, _, hm2, hmem, _⟩ := r.facts
+    have hnk : (w.models[k]!).rootItems.ids.Nodup := by rw [hm2]; exact hn m hmem
+    split
+    · refine wkidsKnown_update S w _ k _ hK ?_ rfl
+      show KidsKnown S ((w.models[k]!).setRoot _).rootItems
+      rw [rootItems_setRoot_modify, r.modify_ok S V hnk, hm2]
+      refine kidsKnown_modify S x _ _ (fun h0 k0 _ _ => ⟨(setRefHdr_keeps S V it ver h0).2.1, fun a b => ⟨?_, ?_⟩⟩) (hK m hmem)
+      · intro c' hc'
+        have := a c' (refKids_childElems_sub _ k0 c' hc')
+        rw [show (setRefF S V it ver (pathOfChain S tc) h0 k0).1.ety = h0.ety from (setRefHdr_keeps S V it ver h0).2.2.1]
+        exact this
+      · exact kidsKnown_refKids S _ k0 b
+    · exact hK
+
 /-! ### the full invariant over all histories of the larger alphabet -/
 
 /-- path index exact, reverse reference map exact, references are leaves, root type, every child known to its parent's type -/
 def FInv (w : World) : Prop := CInv S vOk w ∧ WKidsKnown S w
 
-/-- the guard of the index invariant (`OpOk`) applies to the core operations; renames and sorts are not restricted -/
+/-- everything: tree well-formed and file sets consistent, `FInv`, a reference element holds at most one content item -/
+def GInv (w : World) : Prop := Inv w ∧ FInv S vOk w ∧ WROne S w
+
+/-- the guard of the index invariant (`OpOk`) applies to the core operations; renames, sorts and `set_reference_target` are
+not restricted -/
 def OpXOk : OpX → Prop
   | .core op => OpOk S vOk op
   | .rename _ _ => True
   | .sort _ => True
+  | .setref _ _ => True
 
 instance (op : OpX) : Decidable (OpXOk S vOk op) := by
   cases op <;> simp only [OpXOk] <;> infer_instance
 
+/-- the operation is not `set_reference_target` -/
+def OpX.noSetRef : OpX → Prop
+  | .setref _ _ => False
+  | _ => True
+
+instance (op : OpX) : Decidable op.noSetRef := by
+  cases op <;> simp only [OpX.noSetRef] <;> infer_instance
+
 theorem finv_empty : FInv S vOk emptyWorld := ⟨cinv_empty S vOk, wkidsKnown_empty S⟩
 
-theorem applyOpX_inv (w : World) (op : OpX) (h : Inv w) : Inv (applyOpX S V rootAttrs w op).1 := by
+theorem ginv_empty : GInv S vOk emptyWorld := ⟨inv_empty, finv_empty S vOk, wrone_empty S⟩
+
+/-- `Inv` through one step that is not `set_reference_target`: no guard, no other invariant needed -/
+theorem applyOpX_inv_noSetRef (w : World) (op : OpX) (hop : op.noSetRef) (h : Inv w) : Inv (applyOpX S V rootAttrs w op).1 := by
   cases op with
   | core op => exact applyOp_inv S V rootAttrs w op h
   | rename x nm => exact opRename_inv S V w x nm h
   | sort x => exact opSort_inv S V w x h
+  | setref x t => exact hop.elim
+
+/-- `Inv` through one step of the larger alphabet, in a world with the index invariant (`set_reference_target` needs unique
+element ids) -/
+theorem applyOpX_inv (w : World) (op : OpX) (hw : WInv S vOk w) (h : Inv w) : Inv (applyOpX S V rootAttrs w op).1 := by
+  cases op with
+  | core op => exact applyOp_inv S V rootAttrs w op h
+  | rename x nm => exact opRename_inv S V w x nm h
+  | sort x => exact opSort_inv S V w x h
+  | setref x t => exact opSetRef_inv' S V vOk w x t hw h
 
 /-- one guarded step of the larger alphabet keeps the full invariant -/
-theorem applyOpX_finv (hH : IdxHyp S V vOk) (hR : RefWF S) (hv32 : vOk &&& 0xFFFFFFFF = vOk) (w : World) (op : OpX)
-    (hop : OpXOk S vOk op) (h : FInv S vOk w) : FInv S vOk (applyOpX S V rootAttrs w op).1 := by
+theorem applyOpX_ginv (hH : IdxHyp S V vOk) (hR : RefWF S) (hv32 : vOk &&& 0xFFFFFFFF = vOk) (w : World) (op : OpX)
+    (hop : OpXOk S vOk op) (h : GInv S vOk w) : GInv S vOk (applyOpX S V rootAttrs w op).1 := by
+  obtain ⟨hi, ⟨hc, hk⟩, h1⟩ := h
+  refine ⟨applyOpX_inv S V vOk rootAttrs w op hc.1 hi, ?_⟩
   cases op with
   | core op =>
-    exact ⟨applyOp_cinv S V vOk rootAttrs hH hR w op hop h.1, applyOp_wkidsKnown S V vOk rootAttrs hH hv32 w op h.1.1 h.2⟩
-  | rename x nm => exact ⟨opRename_cinv S V vOk hH hR w x nm h.1, opRename_known S V w x nm h.2⟩
+    exact ⟨⟨applyOp_cinv S V vOk rootAttrs hH hR w op hop hc, applyOp_wkidsKnown S V vOk rootAttrs hH hv32 w op hc.1 hk⟩,
+      applyOp_wrone S V vOk rootAttrs hH hR w op hc.1 h1⟩
+  | rename x nm =>
+    exact ⟨⟨opRename_cinv S V vOk hH hR w x nm hc, opRename_known S V w x nm hk⟩, opRename_one S V w x nm h1⟩
   | sort x =>
-    exact ⟨opSort_cinv S V vOk hH w x h.1 (wsibsKnown_of_wkidsKnown S w h.2), opSort_wkidsKnown S V w x h.2⟩
+    exact ⟨⟨opSort_cinv S V vOk hH w x hc (wsibsKnown_of_wkidsKnown S w hk), opSort_wkidsKnown S V w x hk⟩,
+      opSort_one S V w x h1⟩
+  | setref x t =>
+    obtain ⟨a, b⟩ := opSetRef_cinv S V vOk hR w x t hc h1
+    exact ⟨⟨a, opSetRef_known S V w x t (WIds.of_winv S vOk hc.1) hk⟩, b⟩
 
-/-- `Inv` in every state reachable by any history of the larger alphabet -/
-theorem runX_inv (ops : List OpX) : Inv (runX S V rootAttrs ops) := by
-  unfold runX
-  suffices h : ∀ (w : World), Inv w → Inv (ops.foldl (fun w op => (applyOpX S V rootAttrs w op).1) w) from h _ inv_empty
-  induction ops with
-  | nil => intro w hw; exact hw
-  | cons op rest ih => intro w hw; exact ih _ (applyOpX_inv S V rootAttrs w op hw)
+/-- one guarded step of the larger alphabet keeps `FInv` — given `WROne` before the step (`set_reference_target` needs it) -/
+theorem applyOpX_finv (hH : IdxHyp S V vOk) (hR : RefWF S) (hv32 : vOk &&& 0xFFFFFFFF = vOk) (w : World) (op : OpX)
+    (hop : OpXOk S vOk op) (hi : Inv w) (h1 : WROne S w) (h : FInv S vOk w) : FInv S vOk (applyOpX S V rootAttrs w op).1 :=
+  (applyOpX_ginv S V vOk rootAttrs hH hR hv32 w op hop ⟨hi, h, h1⟩).2.1
 
-/-- the full invariant in every state reachable by any guarded history of the larger alphabet -/
-theorem runX_finv (hH : IdxHyp S V vOk) (hR : RefWF S) (hv32 : vOk &&& 0xFFFFFFFF = vOk) (ops : List OpX)
-    (hops : ∀ op ∈ ops, OpXOk S vOk op) : FInv S vOk (runX S V rootAttrs ops) := by
+/-- **the full invariant in every state reachable by any guarded history of the larger alphabet** -/
+theorem runX_ginv (hH : IdxHyp S V vOk) (hR : RefWF S) (hv32 : vOk &&& 0xFFFFFFFF = vOk) (ops : List OpX)
+    (hops : ∀ op ∈ ops, OpXOk S vOk op) : GInv S vOk (runX S V rootAttrs ops) := by
   unfold runX
-  suffices h : ∀ (w : World), FInv S vOk w → FInv S vOk (ops.foldl (fun w op => (applyOpX S V rootAttrs w op).1) w) from
-    h _ (finv_empty S vOk)
+  suffices h : ∀ (w : World), GInv S vOk w → GInv S vOk (ops.foldl (fun w op => (applyOpX S V rootAttrs w op).1) w) from
+    h _ (ginv_empty S vOk)
   induction ops with
   | nil => intro w hw; exact hw
   | cons op rest ih =>
     intro w hw
     exact ih (fun o ho => hops o (List.mem_cons_of_mem _ ho)) _
-      (applyOpX_finv S V vOk rootAttrs hH hR hv32 w op (hops op List.mem_cons_self) hw)
+      (applyOpX_ginv S V vOk rootAttrs hH hR hv32 w op (hops op List.mem_cons_self) hw)
+
+/-- `FInv` in every state reachable by any guarded history of the larger alphabet -/
+theorem runX_finv (hH : IdxHyp S V vOk) (hR : RefWF S) (hv32 : vOk &&& 0xFFFFFFFF = vOk) (ops : List OpX)
+    (hops : ∀ op ∈ ops, OpXOk S vOk op) : FInv S vOk (runX S V rootAttrs ops) :=
+  (runX_ginv S V vOk rootAttrs hH hR hv32 ops hops).2.1
+
+/-- `WROne` in every state reachable by any guarded history of the larger alphabet -/
+theorem runX_wrone (hH : IdxHyp S V vOk) (hR : RefWF S) (hv32 : vOk &&& 0xFFFFFFFF = vOk) (ops : List OpX)
+    (hops : ∀ op ∈ ops, OpXOk S vOk op) : WROne S (runX S V rootAttrs ops) :=
+  (runX_ginv S V vOk rootAttrs hH hR hv32 ops hops).2.2
+
+/-- `Inv` in every state reachable by any GUARDED history of the larger alphabet (a corollary of `runX_ginv`:
+`set_reference_target` keeps `Inv` only together with the index invariant) -/
+theorem runX_inv (hH : IdxHyp S V vOk) (hR : RefWF S) (hv32 : vOk &&& 0xFFFFFFFF = vOk) (ops : List OpX)
+    (hops : ∀ op ∈ ops, OpXOk S vOk op) : Inv (runX S V rootAttrs ops) :=
+  (runX_ginv S V vOk rootAttrs hH hR hv32 ops hops).1
+
+/-- `Inv` in every state reachable by ANY history of the larger alphabet without `set_reference_target` (no guard) -/
+theorem runX_inv_noSetRef (ops : List OpX) (hops : ∀ op ∈ ops, op.noSetRef) : Inv (runX S V rootAttrs ops) := by
+  unfold runX
+  suffices h : ∀ (w : World), Inv w → Inv (ops.foldl (fun w op => (applyOpX S V rootAttrs w op).1) w) from h _ inv_empty
+  induction ops with
+  | nil => intro w hw; exact hw
+  | cons op rest ih =>
+    intro w hw
+    exact ih (fun o ho => hops o (List.mem_cons_of_mem _ ho)) _
+      (applyOpX_inv_noSetRef S V rootAttrs w op (hops op List.mem_cons_self) hw)
 
 /-! ### failed operations have no effect, for the larger step function -/
 
@@ -173,24 +342,77 @@ def opXRefuses (w : World) : OpX → Prop
   | .core op => opRefuses S V w op
   | .rename x nm => (opRename S V w x nm).2 = .err
   | .sort _ => False
+  | .setref x t => (opSetRef S V w x t).2 = .err
 
 theorem applyOpX_err_frame (w : World) (op : OpX) (h : opXRefuses S V w op) : (applyOpX S V rootAttrs w op).1 = w := by
   cases op with
   | core op => exact applyOp_err_frame S V rootAttrs w op h
   | rename x nm => exact opRename_err_frame S V w x nm h
   | sort x => exact h.elim
+  | setref x t => exact opSetRef_err_frame S V w x t h
 
 theorem applyOpX_answer_err (w : World) (op : OpX) (h : opXRefuses S V w op) : (applyOpX S V rootAttrs w op).2 = "err" := by
   cases op with
   | core op => exact applyOp_answer_err S V rootAttrs w op h
   | rename x nm => show (opRename S V w x nm).2.show = "err"; rw [h]; rfl
   | sort x => exact h.elim
+  | setref x t => show (opSetRef S V w x t).2.show = "err"; rw [h]; rfl
 
 /-- `sort` never refuses -/
 theorem applyOpX_sort_ok (w : World) (x : Nat) : (applyOpX S V rootAttrs w (.sort x)).2 = "ok" := by
   show (opSort S V w x).2.show = "ok"
   rw [opSort_ok]
   rfl
+
+/-- `set_reference_target` is answered with "ok" or "err" -/
+theorem applyOpX_setref_answer (w : World) (x t : Nat) :
+    (applyOpX S V rootAttrs w (.setref x t)).2 = "ok" ∨ (applyOpX S V rootAttrs w (.setref x t)).2 = "err" := by
+  show (opSetRef S V w x t).2.show = "ok" ∨ (opSetRef S V w x t).2.show = "err"
+  rcases opSetRef_ans S V w x t with h | h
+  · rw [h]; exact Or.inl rfl
+  · rw [h]; exact Or.inr rfl
+
+/-! ### C05 / C06 over histories: after a successful `set_reference_target` the reference resolves to the target -/
+
+/-- `opSetRef_target` with the full invariant of the state as the hypothesis -/
+theorem opSetRef_target_ginv (hR : RefWF S) (w : World) (x t : Nat) (hg : GInv S vOk w)
+    (hne : (opSetRef S V w x t).2 ≠ .err)
+    (hsame : ∀ k c kt tc, locate w x = some (k, c) → locate w t = some (kt, tc) → kt = k)
+    (hdest : ∀ k c kt tc it, locate w x = some (k, c) → locate w t = some (kt, tc) →
+      setRefItem S V (lastOf c).1 (lastOf tc).1 = some it → S.verifyDest (lastOf tc).1.ety.typ it = true) :
+    refTarget S V (opSetRef S V w x t).1 x = some t :=
+  opSetRef_target S V vOk hR w x t hg.2.1.1 hg.2.2 hne hsame hdest
+
+theorem runX_snoc (ops : List OpX) (op : OpX) :
+    runX S V rootAttrs (ops ++ [op]) = (applyOpX S V rootAttrs (runX S V rootAttrs ops) op).1 := by
+  unfold runX
+  rw [List.foldl_append]
+  rfl
+
+/-- **in every state reachable by a guarded history of the larger alphabet**: a `set_reference_target x t` that is not
+refused, with the target in the model of the reference element (`hsame`) and of a type that accepts the DEST item the call
+chooses (`hdest`, the `verify_reference_dest` fact), leads to a state in which `get_reference_target x` answers `t` -/
+theorem runX_setref_target (hH : IdxHyp S V vOk) (hR : RefWF S) (hv32 : vOk &&& 0xFFFFFFFF = vOk) (ops : List OpX)
+    (hops : ∀ op ∈ ops, OpXOk S vOk op) (x t : Nat)
+    (hne : (opSetRef S V (runX S V rootAttrs ops) x t).2 ≠ .err)
+    (hsame : ∀ k c kt tc, locate (runX S V rootAttrs ops) x = some (k, c) → locate (runX S V rootAttrs ops) t = some (kt, tc) →
+      kt = k)
+    (hdest : ∀ k c kt tc it, locate (runX S V rootAttrs ops) x = some (k, c) →
+      locate (runX S V rootAttrs ops) t = some (kt, tc) →
+      setRefItem S V (lastOf c).1 (lastOf tc).1 = some it → S.verifyDest (lastOf tc).1.ety.typ it = true) :
+    refTarget S V (runX S V rootAttrs (ops ++ [.setref x t])) x = some t := by
+  rw [runX_snoc]
+  exact opSetRef_target_ginv S V vOk hR _ x t (runX_ginv S V vOk rootAttrs hH hR hv32 ops hops) hne hsame hdest
+
+/-- … and the postcondition in full (`SetRefPost`, `Lemmas/SetRefOp.lean`) -/
+theorem runX_setref_post (hH : IdxHyp S V vOk) (hR : RefWF S) (hv32 : vOk &&& 0xFFFFFFFF = vOk) (ops : List OpX)
+    (hops : ∀ op ∈ ops, OpXOk S vOk op) (x t : Nat)
+    (hne : (opSetRef S V (runX S V rootAttrs ops) x t).2 ≠ .err) :
+    ∃ k c kt tc it c' tc', SetRefPost S V (runX S V rootAttrs ops) (runX S V rootAttrs (ops ++ [.setref x t])) x t k c kt tc it
+      c' tc' := by
+  rw [runX_snoc]
+  have hg := runX_ginv S V vOk rootAttrs hH hR hv32 ops hops
+  exact opSetRef_post S V vOk hR _ x t hg.2.1.1 hg.2.2 hne
 
 end
 end AV.W
